@@ -131,6 +131,10 @@ func (codecStream) Generate(rng *rand.Rand, tier string, emit func(Case)) {
 			Devices: []specs.Device{{Name: "dev0", ContainerEdits: specs.ContainerEdits{Env: []string{"A=b"}}}, {Name: "dev1", ContainerEdits: single()}}}
 		emit(Case{"op": "roundtrip", "spec": specToProto(atDev)})
 	}
+	// a disk that fills up part-way (file size limit at several offsets, also exactly at entry boundaries of the YAML)
+	for _, lim := range []int{1, 64, 300, 1000, 2000, 3500, 4096, 6000} {
+		emit(Case{"op": "roundtrip", "spec": specToProto(variantSpec("B")), "fsize": lim})
+	}
 	// concurrent writers of different names through one cache
 	for k := 0; k < 3; k++ {
 		emit(Case{"op": "roundtrip", "spec": specToProto(sensitiveSpecPlain(rng)), "writers": 12})
@@ -273,6 +277,23 @@ func (codecStream) Execute(c Case) {
 		}
 		_ = os.RemoveAll(codecRoot)
 		defer os.RemoveAll(codecRoot)
+		if lim := kindIdx(c["fsize"]); lim > 0 {
+			// the write runs in a child whose files cannot grow beyond `lim` bytes (RLIMIT_FSIZE, the signal ignored): a
+			// write that reports success has produced a file that reads back equal; one that reports failure has not
+			// been "accepted for writing" and says nothing
+			for _, enc := range []struct{ key, name, file string }{{"json", "t.json", "t.json"}, {"yaml", "t.yaml", "t.yaml"}, {"noext", "t", "t.yaml"}} {
+				dir := filepath.Join(codecRoot, "fsize-"+enc.key)
+				_ = os.MkdirAll(dir, 0o755)
+				code, err := runChild(dir, enc.name, "B", "-", lim, "")
+				switch {
+				case err != nil || code != 0:
+					obs[enc.key] = "skipped"
+				default:
+					obs[enc.key] = rtStatus(variantSpec("B"), filepath.Join(dir, enc.file))
+				}
+			}
+			return
+		}
 		if w := kindIdx(c["writers"]); w > 0 {
 			// several goroutines write their own Spec (the given one plus a marker) under their own name through one
 			// cache, over and over, each reading its own file back after every write
